@@ -121,6 +121,48 @@ func runAtomic(c *ctx) error {
 					Note: "C07: the stored downlink counter did not move once per counter handed out"})
 			}
 		}
+		// ---- AllocateKeys: concurrent reservations on one sequence never overlap
+		if c.prop == "C19" {
+			seqName := fmt.Sprintf("atomic/%d", round)
+			var blocks [][]uint64
+			var wgk sync.WaitGroup
+			for w := 0; w < workers; w++ {
+				wgk.Add(1)
+				go func() {
+					defer wgk.Done()
+					for k := 0; k < c.pick(30, 100); k++ {
+						ch, err := st.AllocateKeys(seqName, 3, 1)
+						if err != nil {
+							continue
+						}
+						var b []uint64
+						for v := range ch {
+							b = append(b, v)
+						}
+						mu.Lock()
+						blocks = append(blocks, b)
+						mu.Unlock()
+					}
+				}()
+			}
+			wgk.Wait()
+			c.res.Eval()
+			c.res.Count("AllocateKeys rounds")
+			seenID := map[uint64]bool{}
+			dup := false
+			for _, b := range blocks {
+				for _, v := range b {
+					if seenID[v] && !dup {
+						dup = true
+						c.res.Add(hx.Finding{Kind: "propfail", Engine: "atomic", Signature: "concurrent-reservations-overlap",
+							Case: fmt.Sprintf("%d goroutines reserving blocks of 3 on one sequence through Storage.AllocateKeys (concurrent readers=%v)", workers, withReaders),
+							Impl: fmt.Sprintf("identifier %d handed out in two blocks", v), Spec: "disjoint blocks",
+							Note: "C19: the reservation is not atomic: two concurrent requesters are given the same identifiers"})
+					}
+					seenID[v] = true
+				}
+			}
+		}
 		// ---- AdvanceFCntUp: for each of a few counter values, all workers try the same value
 		for f := 10; f < 10+c.pick(8, 30); f++ {
 			oks, others := 0, 0
